@@ -1,0 +1,11 @@
+//go:build verif
+
+// Contracts for the verification machinery in /verif (comment-only file; compiled only with -tags verif).
+package asthelper
+
+//@ -- DocContains is used through its abstraction docContains(file, s); its body is not verified (listed as an
+//@ -- assumption): it reads the comment groups of the file, which NilAway never modifies (C17).
+//@ func DocContains
+//@ pure
+//@ nobody
+//@ ensures def (= result (docContains file s))
